@@ -109,7 +109,8 @@ Definition eq_spec (a b : jsnum) : list bool :=
 Definition eq_impl (a b : jsnum) : list bool :=
   let z := same_value_zero_spec (num_sem (canon_of (val a))) (num_sem (canon_of (val b))) in
   [sameAs a b; sameAs b a; strictEquals a b; strictEquals b a;
-   sameValueZero a b && (hash (norm_zero a) =? hash (norm_zero b)); sameValueZero b a;
+   sameValueZero a b && (hash (norm_zero a) =? hash (norm_zero b));
+   sameAs (norm_zero b) a;      (* includes: only the search element is normalised (builtin_array.go:649) *)
    sameValueZero a b && (hash (norm_zero a) =? hash (norm_zero b)); z].
 
 Definition bools_eqb (a b : list bool) : bool :=
